@@ -308,6 +308,31 @@ let judge _id (c : cursor) (r : cursor) : bool * string =
         [("sarsop", "SARSOP::operator()"); ("gapmin", "GapMin::operator()")];
       (true, "reuse")
     end
+  | "resume" ->
+    let h1 = next_int c in let h2 = next_int c in
+    let m = read_pomdp c in
+    let cx = mk_ctx m in
+    let bs = read_beliefs c cx.s in
+    let grid = grid_with_corners cx bs in
+    let site = "PBVI::operator()" in
+    check_status site r;
+    let rd tag = expect r tag; let _ = fin site r in let n = bounded_count site r in take_n n (fun () -> read_vlist_full site cx.s r) in
+    let resumed = rd "resumed" in
+    let fresh = rd "fresh" in
+    if List.length resumed <> h1 + h2 + 1 then oracle_fail "pbvi_shape" site "a resumed solve must return h1 + h2 + 1 lists";
+    (* O: pbvi_sound at every horizon of the resumed value function, and the plan chain *)
+    List.iter (fun b ->
+        List.iteri (fun k vl -> List.iter (fun e ->
+            check_le_ev cx "pbvi_sound" site (Printf.sprintf "resumed PBVI (%d + %d steps) horizon-%d vector" h1 h2 k) k b (dotq e.vals b)) vl) resumed) grid;
+    (match resumed with
+     | v0 :: rest_ -> if not (check_vf (q_of_ints 1 100000000) m v0 rest_) then oracle_fail "pbvi_entries_are_plans" site "resumed solve: an entry is not the plan of its links over the previous list"
+     | [] -> ());
+    (* C: resume(h1) + (h2) = fresh(h1 + h2) on the same belief set, list by list as sets of vectors *)
+    let canon l = List.sort compare (List.map (fun e -> List.map (fun x -> Printf.sprintf "%.9e" (float_of_q x)) e.vals) l) in
+    if List.length fresh <> List.length resumed then disagree "pbvi_resume_eq_fresh" site "different number of horizons";
+    List.iteri (fun k (a, b) -> if canon a <> canon b then disagree "pbvi_resume_eq_fresh" site (Printf.sprintf "horizon %d: resumed and fresh lists differ" k))
+      (List.combine resumed fresh);
+    (h1 >= 1 && h2 >= 1, "resume")
   | "conv" ->
     let tol = next_q c in
     let m = read_pomdp c in
